@@ -252,6 +252,56 @@ def reshape_consistent(src, tgt):
     return i == len(src)
 
 
+_SET_ANNOTATION_REFERENCE = """
+def set_annotation(self, category, array):
+    array = np.asarray(array)
+    if len(array) != self._array_length:
+        raise IndexError('x')
+    if category in self._annot:
+        self._annot[category] = array.astype(dtype=np.promote_types(self._annot[category].dtype, array.dtype), copy=False)
+    else:
+        self._annot[category] = array
+"""
+
+
+def annotation_value_rules(ctx, R="R1"):
+    """what an annotation holds after it is assigned / built from atoms (shared with C17: residue and chain boundaries are read off
+    these arrays): an assigned array is brought to the type that holds both the old and the new values (an unsigned res_id would
+    make `np.diff(res_id) < 0` wrap around); text annotations built from atoms are as wide as the LONGEST value"""
+    from ..equiv import same_function
+    s = ctx.src(ATOMS)
+    sa_ = s.func("_AtomArrayBase.set_annotation")
+    ok, shown = same_function(sa_, _SET_ANNOTATION_REFERENCE)
+    ctx.ob(R + ".assigned-annotation-promoted", ATOMS, "_AtomArrayBase.set_annotation", "existing category: astype(promote_types(old dtype, new dtype))", ok,
+           "an array assigned to an existing annotation is converted to the common type of the old and the new values, a new "
+           "category takes the array as it is; the code computes " + shown, sa_.lineno)
+    ar = s.func("array")
+    from ..exprnorm import has_code as _hc
+    widths = [n_ for n_ in ast.walk(ar) if isinstance(n_, ast.Call) and isinstance(n_.func, ast.Name) and n_.func.id == "max"]
+    ok_w = bool(widths) and all(
+        (len(c.args) == 1 and isinstance(c.args[0], (ast.GeneratorExp, ast.ListComp)) and isinstance(c.args[0].elt, ast.Call)
+         and isinstance(c.args[0].elt.func, ast.Name) and c.args[0].elt.func.id == "len")
+        or any(k.arg == "key" and isinstance(k.value, ast.Name) and k.value.id == "len" for k in c.keywords)
+        for c in widths)
+    # ... and EVERY category of the atoms is (re)declared with that type: add_annotation is called for each name of the loop over the
+    # categories, under no condition (skipping the mandatory ones keeps their default width U4 / U5 / int)
+    adds = []
+    for lp in ast.walk(ar):
+        if isinstance(lp, ast.For) and isinstance(lp.target, ast.Name):
+            for st_ in lp.body:         # statements of the loop body itself: they run in every iteration
+                if isinstance(st_, ast.Expr) and isinstance(st_.value, ast.Call) and call_name(st_.value) == "array.add_annotation":
+                    adds.append((lp, st_.value))
+    nested_adds = [c for c in ast.walk(ar) if isinstance(c, ast.Call) and call_name(c) == "array.add_annotation"]
+    ok_a = bool(adds) and len(nested_adds) == len(adds) and all(c.args and isinstance(c.args[0], ast.Name) and c.args[0].id == lp.target.id for lp, c in adds) \
+        and not any(isinstance(x, (ast.Continue, ast.Break)) for lp, _ in adds for x in ast.walk(lp))
+    ctx.ob(R + ".every-category-declared", ATOMS, "array", "array.add_annotation(name, dtype) for every name, unconditionally", ok_a,
+           "an array built from atoms declares every annotation category with the type found in the atoms (the mandatory ones too: "
+           "their default width would cut longer values)", ar.lineno)
+    ctx.ob(R + ".text-annotation-width", ATOMS, "array", "width = max(len(str(value)) for every atom)", ok_w,
+           "the width of a text annotation built from atoms is the maximum of the LENGTHS (max over the strings themselves is the "
+           "alphabetically last one: longer names are cut)", ar.lineno)
+
+
 def length_rules(ctx, R="R1"):
     """the cached atom count and the atom count of the bond list agree with the arrays (shared with C17: every residue / chain /
     molecule view is laid over array_length() atoms and bonds.get_atom_count() atoms)"""
@@ -362,6 +412,7 @@ def run(ctx):
                        "bonds no longer connect the same atoms / atom counts diverge", f.lineno)
     ctx.floor("axis-pairs", n_pair, 8)
     length_rules(ctx, "R1")
+    annotation_value_rules(ctx, "R1")
     # concatenate / stack axes
     for qual, fname, field, want in (
         ("concatenate", "np.concatenate", "coord", -2),
